@@ -301,6 +301,17 @@ def run(chk, replay=None):
         except Exception:
             pass
     chk.cov["input_distribution"] = dict(dist)
+    # every collector command must have been exercised: a payload kind the rounds never build is a kind whose
+    # goroutines are never raced (the log payloads were missing once: the agent limit scaled to zero)
+    cmds_seen = set()
+    for s in (stats or []):
+        if s:
+            cmds_seen.update(k.split(":")[0] for k in s["collector"])
+    ALL_CMDS = {"preconnect", "connect", "metric_data", "error_data", "transaction_sample_data", "sql_trace_data",
+                "custom_event_data", "error_event_data", "analytic_event_data", "span_event_data", "log_event_data",
+                "update_loaded_modules"}
+    chk.cov["commands_exercised"] = sorted(cmds_seen)
+    coverage_hole = sorted(ALL_CMDS - cmds_seen) if completed else []
     chk.cov["race_reports"] = {s: len(v) for s, v in by_sig.items()}
     chk.cov["rounds"] = len(rounds)
     chk.cov["rounds_completed"] = completed
@@ -341,7 +352,9 @@ def run(chk, replay=None):
         broken.append("the race harness crashed:\n" + "\n".join(unknown_crashes))
     elif completed == 0:
         broken.append("no round of the race harness completed: " + "; ".join(str(c) for c in crashes))
-    if broken and not chk.violations and not chk.known_hits:
+    if coverage_hole:
+        broken.append("the race rounds never produced these collector commands (their goroutines were not raced): %s" % coverage_hole)
+    if broken and not chk.violations:
         chk.fail("broken.txt", "\n\n".join(broken), no_input=True)
     chk.assumptions += [
         "PARTIAL: the theorem is about the ownership protocol (coq/Ownership.v), not about the Go text",
